@@ -10,7 +10,11 @@ RULE = ('histories of 4..18 steps over a growing pool of objects: create by ever
         'token string with cache hit or miss/fromstring), derive by cls(other), bits=, .bits=, copy.copy, .copy(), slicing, operators incl. same-object & and |, join, pack, read, cut, split, unpack, '
         '.bits, tobitarray, Array build/slice/copy; then mutate one side (any mutator, or the external bytearray/bitarray/array) and re-read bin/len/hash of every other object. The sharing graph '
         '(which objects hold the same BitStore) is compared with the heap model after every step. Structured histories per class x duplication route of the copy / pickle modules (copy.deepcopy of the object, '
-        'of containers and user objects holding it, with a memo, pickle protocols 0-5, copyreg reconstruction): duplicate, derive from both sides, edit both sides, duplicate again (oracle only). non-trivial = a history with at least one mutation after a derivation; distinct by history')
+        'of containers and user objects holding it, with a memo, pickle protocols 0-5, copyreg reconstruction): duplicate, derive from both sides, edit both sides, duplicate again (oracle only). '
+        'refuse: an object reached by one of 30 constructions and a chain of 0-3 of 69 derivations (slices, operators, cut / split pieces, read / peek / readlist / readto / unpack results, .bits, Dtype build / parse, copies, join, conversions; '
+        'contents computed on str) - then every way of writing is attempted on it (all 42 interpretation properties and aliases with fitting / other / falsy values, names carrying a length, len / pos names, delattr, '
+        '33 mutating methods and dunders by name, in-place operators, __init__ again, stream methods, 22 mutable derivatives edited in place): an immutable object shows the same class, bits, length, bytes, hash afterwards, '
+        'all earlier stages and re-parsed literals keep their bits (oracle only). non-trivial = a history with at least one mutation after a derivation; distinct by history')
 ASSUMPTIONS = ['object identity is observed through id(o._bitstore) in the harness process only to compare sharing graphs; the verdict is behavioural',
                'Array.data is the live buffer by documented design and is not a violation']
 COQ_PRELUDE = '''
@@ -132,7 +136,504 @@ def deep_histories(rng, tier):
                 if rng.random() < 0.3: steps.append({'op': 'mutate_external', 'target': rng.randrange(nobj)})
                 yield {'op': 'history', 'steps': steps, 'lsb0': rng.random() < 0.2}
 
+# ---------------------------------------------------------------------------------------------------------------------------------------------
+# "Immutable classes expose no operation that alters their own content" / "the value of a Bits or ConstBitStream object never changes after
+# creation": op 'refuse'. An object is obtained by a base construction followed by a chain of 0-3 derivations (every operator, slice form, cut / split
+# piece, read / peek / readlist / readto / unpack result, .bits, Dtype build / parse, every kind of copy, join, class conversion, pack ...); the content
+# of every stage is computed by the generator on plain str. Then EVERY way of writing to an object is attempted on the last stage: assignment to each
+# interpretation property and alias (values that fit the current length, values of another length, falsy values), to names that carry a length, to
+# len / length / pos / bitpos / bytepos, deletion of attributes, each mutating method and in-place operator of the mutable classes called by name,
+# __init__ called again, the position-moving stream methods, a bitarray / mutable bitstring obtained from it and edited. Whatever an attempt does
+# (raise or return), an object of an immutable class shows the same class, bits, length, bytes and hash afterwards; for every class the earlier stages,
+# the objects it was derived from and a bitstring parsed again from the literal used keep their bits.
+# ---------------------------------------------------------------------------------------------------------------------------------------------
+REG_NAMES = ['uint', 'uintle', 'uintbe', 'int', 'intle', 'intbe', 'hex', 'bin', 'oct', 'float', 'floatle', 'bfloat', 'bfloatle', 'bits', 'bool', 'bytes', 'se', 'ue', 'sie', 'uie',
+             'pad', 'p3binary', 'p4binary', 'e4m3mxfp', 'e5m2mxfp', 'e3m2mxfp', 'e2m3mxfp', 'e2m1mxfp', 'e8m0mxfp', 'mxint', 'floatbe', 'bfloatbe', 'i', 'u', 'h', 'o', 'b', 'f',
+             'uintne', 'intne', 'floatne', 'bfloatne']
+OTHER_NAMES = ['len', 'length', 'pos', 'bitpos', 'bytepos']
+SIZED_BASES = ['uint', 'u', 'int', 'i', 'hex', 'h', 'bin', 'b', 'oct', 'o', 'bits', 'bytes', 'float', 'f', 'floatle', 'floatne', 'bfloat', 'bool', 'uintle', 'uintbe', 'uintne', 'intle', 'intbe', 'intne',
+               'pad', 'e4m3mxfp', 'e2m1mxfp', 'p3binary', 'mxint']
+_UINTS = ('uint', 'u', 'uintbe', 'uintle', 'uintne'); _INTS = ('int', 'i', 'intbe', 'intle', 'intne')
+_FLOATS = ('float', 'f', 'floatbe', 'floatle', 'floatne', 'bfloat', 'bfloatbe', 'bfloatle', 'bfloatne', 'p3binary', 'p4binary', 'e4m3mxfp', 'e5m2mxfp', 'e3m2mxfp', 'e2m3mxfp', 'e2m1mxfp', 'e8m0mxfp', 'mxint')
+
+def _flipbits(d): return ''.join('1' if ch == '0' else '0' for ch in d)
+
+def setter_values(rng, base, e):
+    """JSON-able values for an assignment to the property `base` of an object holding the bits e: first one that the setter of a mutable object of this length
+    would take and that gives other bits (the complement of e) where the dtype has such a value, then values of other lengths / falsy values"""
+    n = len(e); t = _flipbits(e) if n else '1011'
+    u = int(t, 2)
+    if base in _UINTS: return [u, 0, rng.randrange(1 << max(n, 1))]
+    if base in _INTS: return [u - (1 << len(t)) if t[0] == '1' else u, 0, -1]
+    if base in ('hex', 'h'): return [format(u, f'0{(len(t) + 3) // 4}x'), '', '0xa5']
+    if base in ('bin', 'b'): return [t, '', '0b' + t + '1']
+    if base in ('oct', 'o'): return [format(u, f'0{(len(t) + 2) // 3}o'), '', '7']
+    if base in _FLOATS: return [rng.choice([1.5, -2.0, 0.25]), 0.0, -0.0, rng.choice([1.0, 3.0, -0.5])]
+    if base == 'bytes': return [['bytes', format(u, f'0{2 * ((len(t) + 7) // 8)}x')], ['bytes', ''], ['bytes', 'a55a']]
+    if base == 'bits': return [['bits', rng.choice(CLASSES), t], '0b' + t, '', ['bits', rng.choice(CLASSES), '']]
+    if base == 'bool': return [e != '1', False, True, 0]
+    if base in ('ue', 'uie'): return [rng.choice([0, 1, 2, 5, 30]), 0]
+    if base in ('se', 'sie'): return [rng.choice([-3, -1, 1, 4]), 0]
+    if base == 'pad': return [None, 0]
+    if base in ('len', 'length'): return [n + 1, 0, max(n - 1, 0)]
+    if base in ('pos', 'bitpos'): return [0, n, n // 2, n + 1, -1]
+    if base == 'bytepos': return [0, n // 8, n // 8 + 1]
+    raise AssertionError(base)
+
+MUTATING_CALLS = [  # (method of the mutable classes or a dunder, argument lists); 'X' stands for a bitstring literal of other bits, 'ONES' for as many one bits as the object has
+    ('append', [['X']]), ('prepend', [['X']]), ('insert', [['X', 0], ['X']]), ('overwrite', [['X', 0], ['X']]), ('invert', [[], [0]]), ('set', [[1], [0, 0], [1, [0, -1]]]),
+    ('clear', [[]]), ('reverse', [[]]), ('rol', [[1]]), ('ror', [[1]]), ('replace', [['0b1', '0b00'], ['0b0', 'X']]), ('byteswap', [[], [1]]),
+    ('__setitem__', [[0, 1], [-1, 0], [['slice', 0, 2], 'X'], [['slice', None, None], 'X']]), ('__delitem__', [[0], [['slice', 0, 1]], [['slice', None, None]]]),
+    ('__iadd__', [['X']]), ('__imul__', [[2], [0]]), ('__ilshift__', [[1]]), ('__irshift__', [[1]]), ('__iand__', [['ZEROS']]), ('__ior__', [['ONES']]), ('__ixor__', [['ONES']]),
+    ('__setattr__', [['hex', 'a5'], ['bin', '1'], ['uint', 1], ['_pos', 0]]), ('__delattr__', [['hex'], ['bin']]),
+    ('__init__', [['X'], [], [3]]), ('__init_kw__', [['bin'], ['hex'], ['bytes'], ['uint']]), ('fromstring', [['X']]),
+    # stream methods: the position may move, the bits may not
+    ('read', [[1], ['bits:1'], ['bin']]), ('peek', [[1]]), ('readlist', [['bits:1, bin']]), ('peeklist', [['bits:1']]), ('bytealign', [[]]), ('readto', [['0b1']]), ('find', [['0b1'], ['0b0']]), ('rfind', [['0b1']]),
+]
+INPLACE_OPERATORS = ['iadd', 'imul', 'ilshift', 'irshift', 'iand', 'ior', 'ixor', 'iconcat', 'irepeat']
+VIA_MUTABLE = ['tobitarray', 'BitArray(o)', 'BitStream(o)', 'BitArray(bits=o)', 'BitArray()+o', 'o+BitArray()', 'BitStream().append(o)', 'BitArray()+=o', 'BitArray().prepend(o)', 'm.bits=o', 'pack', 'join', 'BitArray(o.copy())',
+               'copy.copy->BitStream', 'deepcopy->BitArray', 'Array(bits)', 'BitArray.insert(o)', 'BitArray.overwrite(o)', 'BitArray[:]=o', 'o[:]->BitArray', 'o*1->BitArray', 'BitArray|=o']
+
+def refuse_attempts(rng, e, full):
+    """the list of attempts for an object of bits e; full: every name, else a sample"""
+    n = len(e)
+    A = []
+    for name in REG_NAMES + OTHER_NAMES:
+        vals = setter_values(rng, name, e)
+        picks = [vals[0]] + ([rng.choice(vals[1:])] if len(vals) > 1 and (full or rng.random() < 0.4) else [])
+        for v in picks: A.append(['setattr', name, v])
+    for base in SIZED_BASES:
+        if not full and rng.random() < 0.5: continue
+        k = n // 8 if base == 'bytes' else n
+        if rng.random() < 0.25: k = rng.choice([1, 4, 8, 16, 32])
+        nm = base + (rng.choice(['', ':']) if rng.random() < 0.2 else '') + str(k)
+        A.append(['setattr', nm, setter_values(rng, base, e)[0]])
+    for name in rng.sample(REG_NAMES, 4) + ['hex8', 'pos', 'len', 'nosuchattribute']:
+        A.append(['delattr', name, None])
+    A.append(['setattr', 'nosuchattribute', 1])
+    for meth, arglists in MUTATING_CALLS:
+        for args in (arglists if full else [rng.choice(arglists)]):
+            A.append(['call', meth, args])
+    for opn in INPLACE_OPERATORS:
+        A.append(['iop', opn, rng.choice([2, 1, 0]) if opn in ('imul', 'ilshift', 'irshift', 'irepeat') else ('X' if opn in ('iadd', 'iconcat') else 'ONES')])
+    for how in (VIA_MUTABLE if full else rng.sample(VIA_MUTABLE, 8)):
+        A.append(['via_mutable', how, None])
+    rng.shuffle(A)
+    return A
+
+BASES = ROUTES + ['hex', 'fromstring', 'uint_kw', 'from_cls', 'bits_kw', 'zeros', 'noarg', 'bytes_kw', 'bytearray', 'memoryview', 'array', 'multi_token', 'cachehit', 'packed', 'literal_hex', 'int_kw']
+STREAM_DERIVS = ['read_int', 'read_str', 'read_dtype', 'read_rest', 'peek_int', 'peek_str', 'readlist', 'readlist_ints', 'peeklist', 'readto']
+DERIVS = ['slice', 'slice_full', 'slice_step', 'slice_neg', 'add_self', 'add_lit', 'add_long_lit', 'radd_lit', 'radd_bytes', 'radd_list', 'add_empty', 'add_emptystr', 'empty_add', 'radd_emptystr',
+          'add_cls', 'cls_add', 'cls_empty_add', 'invert', 'and_ones', 'or_zeros', 'xor_zeros', 'and_self', 'or_self', 'xor_ones', 'rand_lit', 'ror_lit', 'rxor_lit', 'lshift', 'rshift', 'mul', 'rmul',
+          'cut', 'split', 'unpack', 'unpack_all', 'unpack_ints', 'dotbits', 'dotbits_sized', 'build', 'build_sized', 'parse', 'copy', 'copycopy', 'deepcopy', 'pickle', 'underscore_copy',
+          'join_single', 'join_sep', 'join_two', 'cls_join', 'to_cls', 'bits_kw', 'from_tobitarray', 'via_bytes', 'pack_bits', 'pack_sized', 'array_item', 'iadd_result', 'imul_result'] + STREAM_DERIVS
+CLASS_KEEPING = [d for d in DERIVS if d not in ('cls_add', 'cls_empty_add', 'cls_join', 'to_cls', 'bits_kw', 'from_tobitarray', 'via_bytes', 'pack_bits', 'pack_sized', 'array_item', 'build', 'build_sized', 'parse')]
+
+def _split_ref(e, d):
+    pos = []; i = e.find(d)
+    while i != -1: pos.append(i); i = e.find(d, i + 1)
+    if not pos: return [e]
+    return [e[:pos[0]]] + [e[a:b] for a, b in zip(pos, pos[1:] + [len(e)])]
+
+def deriv_args(rng, name, e):
+    """arguments (a JSON-able dict) of derivation `name` for an object holding e together with the bits of the result, or None when the derivation does not apply to e.
+    The result is computed here, on str, from what the documentation says the operation gives"""
+    n = len(e)
+    y = rand_bits(rng, rng.randrange(1, 10), 'rand')
+    O = rng.choice(CLASSES)
+    if name == 'slice':
+        a, b = sorted([rng.randrange(n + 1), rng.randrange(n + 1)])
+        if rng.random() < 0.5 and n: a, b = rng.choice([(0, n), (0, n - 1), (1, n), (n // 2, n), (0, n // 2 + 1)])
+        return {'a': a, 'b': b}, e[a:b]
+    if name == 'slice_full': return {}, e
+    if name == 'slice_step':
+        st = rng.choice([2, 3, -1, -2, 1]); return {'step': st}, e[::st]
+    if name == 'slice_neg':
+        if not n: return None
+        k = rng.randrange(1, n + 1); return {'k': k}, e[-k:]
+    if name == 'add_self': return {}, e + e
+    if name == 'add_lit': return {'y': y}, e + y
+    if name == 'add_long_lit':
+        y = rand_bits(rng, n + rng.randrange(1, 10), 'rand'); return {'y': y}, e + y
+    if name == 'radd_lit': return {'y': y}, y + e
+    if name == 'radd_bytes':
+        v = rng.randrange(256); return {'v': v}, format(v, '08b') + e
+    if name == 'radd_list': return {'y': y}, y + e
+    if name in ('add_empty', 'add_emptystr', 'empty_add', 'radd_emptystr'): return {}, e
+    if name == 'add_cls': return {'O': O, 'y': rng.choice([y, '', rand_bits(rng, n + 3, 'rand')])}, None
+    if name == 'cls_add': return {'O': O, 'y': rng.choice([y, rand_bits(rng, n + 3, 'rand')])}, None
+    if name == 'cls_empty_add': return {'O': O}, e
+    if name in ('invert', 'xor_ones', 'rxor_lit'): return ({}, _flipbits(e)) if n else None
+    if name in ('and_ones', 'or_zeros', 'xor_zeros', 'and_self', 'or_self', 'rand_lit', 'ror_lit'): return ({}, e) if n else None
+    if name in ('lshift', 'rshift'):
+        if not n: return None
+        k = rng.choice([0, 1, n - 1, n, n + 2, rng.randrange(n + 1)]); kk = min(k, n)
+        return {'k': k}, (e[kk:] + '0' * kk if name == 'lshift' else '0' * kk + e[:n - kk])
+    if name in ('mul', 'rmul', 'imul_result'):
+        k = rng.choice([0, 1, 2, 3]); return {'k': k}, e * k
+    if name == 'iadd_result': return {'y': y}, e + y
+    if name == 'cut':
+        if not n: return None
+        k = rng.choice([1, 3, 8, n, n + 1, max(1, n // 2)]); pieces = [e[i:i + k] for i in range(0, n, k)]
+        j = rng.randrange(len(pieces)); return {'k': k, 'j': j}, pieces[j]
+    if name == 'split':
+        d = rng.choice(['1', '0', '10', '01']); pieces = _split_ref(e, d)
+        j = rng.randrange(len(pieces)); return {'d': d, 'j': j}, pieces[j]
+    if name in ('unpack', 'unpack_ints'):
+        k = rng.randrange(n + 1); j = rng.randrange(2); return {'k': k, 'j': j}, (e[:k], e[k:])[j]
+    if name in ('unpack_all', 'dotbits', 'build', 'copy', 'copycopy', 'deepcopy', 'pickle', 'underscore_copy', 'join_single', 'from_tobitarray', 'via_bytes', 'pack_bits'): return {'O': O}, e
+    if name in ('dotbits_sized', 'build_sized', 'parse', 'pack_sized', 'array_item'): return ({'O': O}, e) if n else None
+    if name == 'join_sep':
+        y2 = rand_bits(rng, rng.randrange(0, 5), 'rand'); return {'y': y, 'y2': y2}, y + e + y2
+    if name == 'join_two': return {}, e + e
+    if name == 'cls_join': return {'O': O, 'y': y}, e + y
+    if name in ('to_cls', 'bits_kw'): return {'O': O}, e
+    if name in STREAM_DERIVS:
+        p = rng.choice([0, 0, rng.randrange(n + 1)]); k = rng.randrange(n - p + 1)
+        if name in ('read_int', 'read_str', 'read_dtype', 'peek_int', 'peek_str'): return {'p': p, 'k': k}, e[p:p + k]
+        if name == 'read_rest': return {'p': p}, e[p:]
+        if name in ('readlist', 'peeklist'):
+            j = rng.randrange(2); return {'p': p, 'k': k, 'j': j}, (e[p:p + k], e[p + k:])[j]
+        if name == 'readlist_ints':
+            k2 = rng.randrange(n - p - k + 1); j = rng.randrange(2); return {'p': p, 'k': k, 'k2': k2, 'j': j}, (e[p:p + k], e[p + k:p + k + k2])[j]
+        if name == 'readto':
+            d = rng.choice(['1', '0', '10', '11'])
+            i = e.find(d, p)
+            if i < 0: return None
+            return {'p': p, 'd': d}, e[p:i + len(d)]
+    raise AssertionError(name)
+
+def _fix_expected(name, a, e):
+    if name == 'add_cls': return e + a['y']
+    if name == 'cls_add': return a['y'] + e
+    return None
+
+def apply_deriv(name, x, a, rel):
+    """derivation `name` carried out on the implementation; rel collects the other objects involved"""
+    import bitstring, pickle
+    from bitstring import Bits, BitArray, ConstBitStream, BitStream, Dtype, pack
+    n = len(x); T = type(x); O = cls_of(a['O']) if 'O' in a else None
+    lit = lambda y: '0b' + y if y else ''
+    if name == 'slice': return x[a['a']:a['b']]
+    if name == 'slice_full': return x[:]
+    if name == 'slice_step': return x[::a['step']]
+    if name == 'slice_neg': return x[-a['k']:]
+    if name == 'add_self': return x + x
+    if name in ('add_lit', 'add_long_lit'): return x + lit(a['y'])
+    if name == 'radd_lit': return lit(a['y']) + x
+    if name == 'radd_bytes': return bytes([a['v']]) + x
+    if name == 'radd_list': return [int(ch) for ch in a['y']] + x
+    if name == 'add_empty': return x + T()
+    if name == 'add_emptystr': return x + ''
+    if name == 'empty_add': return T() + x
+    if name == 'radd_emptystr': return '' + x
+    if name == 'add_cls':
+        o = O(bin=a['y']); rel.append([o, a['y']]); return x + o
+    if name == 'cls_add':
+        o = O(bin=a['y']); rel.append([o, a['y']]); return o + x
+    if name == 'cls_empty_add': return O() + x
+    if name == 'invert': return ~x
+    if name == 'and_ones': return x & Bits(bin='1' * n)
+    if name == 'or_zeros': return x | Bits(n)
+    if name == 'xor_zeros': return x ^ ('0b' + '0' * n)
+    if name == 'xor_ones': return x ^ BitArray(bin='1' * n)
+    if name == 'and_self': return x & x
+    if name == 'or_self': return x | x
+    if name == 'rand_lit': return ('0b' + '1' * n) & x
+    if name == 'ror_lit': return ('0b' + '0' * n) | x
+    if name == 'rxor_lit': return ('0b' + '1' * n) ^ x
+    if name == 'lshift': return x << a['k']
+    if name == 'rshift': return x >> a['k']
+    if name == 'mul': return x * a['k']
+    if name == 'rmul': return a['k'] * x
+    if name == 'imul_result':
+        z = x[:] if isinstance(x, BitArray) else x
+        z *= a['k']; return z
+    if name == 'iadd_result':
+        z = x[:] if isinstance(x, BitArray) else x
+        z += lit(a['y']); return z
+    if name == 'cut': return list(x.cut(a['k']))[a['j']]
+    if name == 'split': return list(x.split('0b' + a['d']))[a['j']]
+    if name == 'unpack': return x.unpack(f"bits:{a['k']}, bits")[a['j']]
+    if name == 'unpack_ints': return x.unpack([a['k'], 'bits'])[a['j']]
+    if name == 'unpack_all': return x.unpack('bits')[0]
+    if name == 'dotbits': return x.bits
+    if name == 'dotbits_sized': return getattr(x, f'bits{n}')
+    if name == 'build': return Dtype('bits').build(x)
+    if name == 'build_sized': return Dtype('bits', n).build(x)
+    if name == 'parse': return Dtype('bits', n).parse(x)
+    if name == 'copy': return x.copy()
+    if name == 'copycopy': return _copy.copy(x)
+    if name == 'deepcopy': return _copy.deepcopy(x)
+    if name == 'pickle': return pickle.loads(pickle.dumps(x, 2 + n % 4))
+    if name == 'underscore_copy': return x._copy()
+    if name == 'join_single': return T().join([x])
+    if name == 'join_sep': return x.join([lit(a['y']), lit(a['y2'])])
+    if name == 'join_two': return T().join([x, x])
+    if name == 'cls_join': return O().join([x, lit(a['y'])])
+    if name == 'to_cls': return O(x)
+    if name == 'bits_kw': return O(bits=x)
+    if name == 'from_tobitarray': return O(x.tobitarray())
+    if name == 'via_bytes': return O(bytes=x.tobytes(), length=n)
+    if name == 'pack_bits': return pack('bits', x)
+    if name == 'pack_sized': return pack(f'bits:{n}', x)
+    if name == 'array_item': return bitstring.Array(f'bits{n}', [x])[0]
+    if name in STREAM_DERIVS:
+        st = x if isinstance(x, ConstBitStream) else (BitStream(x) if isinstance(x, BitArray) else ConstBitStream(x))
+        if st is not x: rel.append([st, None])
+        st.pos = a['p']; k = a.get('k')
+        if name == 'read_int': return st.read(k)
+        if name == 'read_str': return st.read(f'bits:{k}')
+        if name == 'read_dtype': return st.read(Dtype('bits', k))
+        if name == 'read_rest': return st.read('bits')
+        if name == 'peek_int': return st.peek(k)
+        if name == 'peek_str': return st.peek(f'bits{k}')
+        if name == 'readlist': return st.readlist(f'bits:{k}, bits')[a['j']]
+        if name == 'readlist_ints': return st.readlist([k, a['k2']])[a['j']]
+        if name == 'peeklist': return st.peeklist([f'bits:{k}', 'bits'])[a['j']]
+        if name == 'readto': return st.readto('0b' + a['d'])
+    raise AssertionError(name)
+
+def base_object(C, how, e, a, rel, tmp, lits):
+    import bitstring, array
+    n = len(e)
+    if how in ROUTES: return build(C.__name__, e, how)
+    raw = int(e, 2).to_bytes(n // 8, 'big') if n and n % 8 == 0 else b''
+    if how == 'hex': return C(hex=format(int(e, 2), f'0{n // 4}x'))
+    if how == 'literal_hex':
+        s = '0x' + format(int(e, 2), f'0{n // 4}x'); lits.append([s, e]); return C(s)
+    if how in ('fromstring', 'cachehit'):
+        s = '0b' + e if n else ''
+        lits.append([s, e])
+        if how == 'cachehit': bitstring.Bits(s)
+        return C.fromstring(s) if how == 'fromstring' else C(s)
+    if how == 'multi_token':
+        s = f"0b{e[:n // 2]}, 0b{e[n // 2:]}"; lits.append([s, e]); return C(s)
+    if how == 'uint_kw': return C(uint=int(e, 2), length=n)
+    if how == 'int_kw': return C(int=int(e, 2) - ((1 << n) if e[0] == '1' else 0), length=n)
+    if how in ('from_cls', 'bits_kw'):
+        o = cls_of(a['O'])(bin=e); rel.append([o, e])
+        return C(o) if how == 'from_cls' else C(bits=o)
+    if how == 'zeros': return C(n)
+    if how == 'noarg': return C()
+    if how == 'bytes_kw': return C(bytes=raw)
+    if how == 'bytearray': return C(bytearray(raw))
+    if how == 'memoryview': return C(memoryview(raw))
+    if how == 'array': return C(array.array('B', raw))
+    if how == 'packed': return C(bitstring.pack('bin', e))
+    raise AssertionError(how)
+
+def base_applies(how, n):
+    if how in ('hex', 'literal_hex'): return n > 0 and n % 4 == 0
+    if how in ('uint_kw', 'int_kw', 'packed'): return n > 0
+    if how in ('bytes_kw', 'bytearray', 'memoryview', 'array'): return n % 8 == 0
+    if how == 'multi_token': return n >= 2
+    if how == 'noarg': return n == 0
+    return True
+
+def refuse_case(rng, C, base, chain_names, n, lsb0, full, fresh=False):
+    e = rand_bits(rng, n)
+    if base == 'zeros': e = '0' * n
+    if base == 'noarg': e = ''
+    if not base_applies(base, len(e)): base = 'bin'
+    stages = [{'d': 'base:' + base, 'a': {'O': rng.choice(CLASSES)}, 'exp': e}]
+    for name in chain_names:
+        r = None
+        for _ in range(4):
+            r = deriv_args(rng, name, e)
+            if r is not None: break
+        if r is None: continue
+        a, e2 = r
+        if e2 is None: e2 = _fix_expected(name, a, e)
+        stages.append({'d': name, 'a': a, 'exp': e2}); e = e2
+    A = refuse_attempts(rng, e, full)
+    if fresh: A = A[:14]
+    return {'op': 'refuse', 'cls': C, 'stages': stages, 'attempts': A, 'lsb0': lsb0, 'fresh': fresh, 'xbits': rand_bits(rng, rng.choice([1, 3, 8]), 'rand')}
+
+def refuse_cases(rng, tier):
+    lens = [1, 2, 7, 8, 9, 12, 16, 17, 24, 31, 32, 33, 40, 64, 65]
+    def mode(): return rng.choice([0, 0, 0, 1, 2])
+    imm = ['Bits', 'ConstBitStream']
+    reps = 1 if tier == 'quick' else 10
+    for rep in range(reps):
+        # every derivation as the last step, for both immutable classes, after a class-keeping prefix of 0-2 derivations
+        for d in DERIVS:
+            for C in imm:
+                pre = [rng.choice(CLASS_KEEPING) for _ in range(rng.choice([0, 0, 1, 2]))]
+                yield refuse_case(rng, C, rng.choice(BASES), pre + [d], rng.choice(lens), mode(), full=(tier == 'thorough' or rng.random() < 0.3), fresh=rng.random() < 0.15)
+        # every base construction, no derivation
+        for b in BASES:
+            for C in imm:
+                yield refuse_case(rng, C, b, [], rng.choice(lens + [0, 128]), mode(), full=rng.random() < 0.5, fresh=rng.random() < 0.15)
+        # free chains from any class (the classes change along the chain: conversions, operands of other classes, reads from a stream over a mutable object)
+        for _ in range(40 if tier == 'quick' else 150):
+            yield refuse_case(rng, rng.choice(CLASSES), rng.choice(BASES), [rng.choice(DERIVS) for _ in range(rng.randrange(1, 4))], rng.choice(lens + [0, 128, 129]), mode(), full=rng.random() < 0.3,
+                              fresh=rng.random() < 0.15)
+
+def _snap(o, deep=True):
+    import bitstring
+    r = [type(o).__name__, o.bin, len(o)]
+    if deep:
+        r.append(o.tobytes().hex())
+        r.append(''.join('1' if bit else '0' for bit in o) if not bitstring.options.lsb0 else None)     # bit by bit (index order is the order of bin under msb0 only)
+        r.append(hash(o) if not isinstance(o, bitstring.BitArray) else None)
+    return r
+
+def _decode(v, e, xbits):
+    import bitstring
+    if v == 'X': return '0b' + xbits
+    if v == 'ONES': return '0b' + '1' * len(e) if e else ''
+    if v == 'ZEROS': return '0b' + '0' * len(e) if e else ''
+    if isinstance(v, list) and v and v[0] == 'bytes': return bytes.fromhex(v[1])
+    if isinstance(v, list) and v and v[0] == 'bits': return cls_of(v[1])(bin=v[2])
+    if isinstance(v, list) and v and v[0] == 'slice': return slice(v[1], v[2])
+    if isinstance(v, list): return [_decode(x, e, xbits) for x in v]
+    return v
+
+def _via_mutable(how, o):
+    """a mutable object (or a bitarray) obtained from o, then edited in place"""
+    import bitstring
+    from bitstring import BitArray, BitStream, pack
+    if how == 'tobitarray':
+        ba = o.tobitarray(); ba.invert(); ba.append(1); ba[:1] = 0; return
+    if how == 'BitArray(o)': m = BitArray(o)
+    elif how == 'BitStream(o)': m = BitStream(o)
+    elif how == 'BitArray(bits=o)': m = BitArray(bits=o)
+    elif how == 'BitArray()+o': m = BitArray() + o
+    elif how == 'o+BitArray()':
+        m = o + BitArray()
+        if not isinstance(m, BitArray): return
+    elif how == 'BitStream().append(o)':
+        m = BitStream(); m.append(o)
+    elif how == 'BitArray()+=o':
+        m = BitArray(); m += o
+    elif how == 'BitArray().prepend(o)':
+        m = BitArray(); m.prepend(o)
+    elif how == 'm.bits=o':
+        m = BitArray('0b1'); m.bits = o
+    elif how == 'pack': m = pack('bits', o)
+    elif how == 'join': m = BitArray().join([o])
+    elif how == 'BitArray(o.copy())': m = BitArray(o.copy())
+    elif how == 'copy.copy->BitStream': m = BitStream(_copy.copy(o))
+    elif how == 'deepcopy->BitArray': m = BitArray(_copy.deepcopy(o))
+    elif how == 'Array(bits)':
+        if not len(o): return
+        arr = bitstring.Array(f'bits{len(o)}', [o]); arr.data.invert(); arr.data.append('0b1'); m = arr[0] if len(arr.data) % len(o) == 0 else BitArray(o)
+    elif how == 'BitArray.insert(o)':
+        m = BitArray(); m.insert(o, 0)
+    elif how == 'BitArray.overwrite(o)':
+        m = BitArray(len(o)); m.overwrite(o, 0)
+    elif how == 'BitArray[:]=o':
+        m = BitArray('0b10'); m[:] = o
+    elif how == 'o[:]->BitArray': m = BitArray(o[:])
+    elif how == 'o*1->BitArray': m = BitArray(o * 1)
+    elif how == 'BitArray|=o':
+        m = BitArray(len(o))
+        if len(o): m |= o
+    else: raise AssertionError(how)
+    if len(m): m.invert(); m.set(1, 0); m.reverse()
+    m.append('0b1'); m.prepend('0b0')
+    if len(m) > 2: del m[1]
+
+def run_refuse(c):
+    import bitstring, operator
+    clear_caches()
+    tmp = []
+    def construct():
+        rel, lits = [], []
+        bitstring.options.lsb0 = c['lsb0'] == 2
+        st0 = c['stages'][0]
+        x = base_object(cls_of(c['cls']), st0['d'][5:], st0['exp'], st0['a'], rel, tmp, lits)
+        objs = [x]
+        for st in c['stages'][1:]:
+            x = apply_deriv(st['d'], x, st['a'], rel); objs.append(x)
+        bitstring.options.lsb0 = bool(c['lsb0'])
+        return objs, rel, lits
+    def one(o, att, e):
+        kind_, name, v = att
+        x = c['xbits']
+        if kind_ == 'setattr': setattr(o, name, _decode(v, e, x)); return
+        if kind_ == 'delattr': delattr(o, name); return
+        if kind_ == 'call':
+            if name == '__init_kw__':
+                kw = {'bin': {'bin': x}, 'hex': {'hex': 'a5'}, 'bytes': {'bytes': b'\x5a'}, 'uint': {'uint': 5, 'length': 8}}[v[0]]
+                o.__init__(**kw); return
+            getattr(o, name)(*_decode(v, e, x)); return
+        if kind_ == 'iop':
+            getattr(operator, name)(o, _decode(v, e, x)); return
+        if kind_ == 'via_mutable': _via_mutable(name, o); return
+        raise AssertionError(kind_)
+    def f():
+        objs, rel, lits = construct()
+        target = objs[-1]
+        if not isinstance(target, bitstring.Bits): return {'built': [type(target).__name__]}
+        e = target.bin
+        stages = [[type(o).__name__, o.bin] if isinstance(o, bitstring.Bits) else [type(o).__name__, None] for o in objs]
+        snap0 = _snap(target)
+        others = [o for o in objs[:-1] if o is not target] + [o for o, _ in rel if o is not target]
+        others0 = [_snap(o, False) for o in others]
+        res = []
+        for att in c['attempts']:
+            if c['fresh']:
+                # the object written to is newly built and has not been looked at (not even hashed) before; what it should show comes from a twin built the same way
+                s0 = _snap(construct()[0][-1])
+                tgt = construct()[0][-1]
+            else:
+                tgt, s0 = target, snap0
+            r = attempt(lambda: one(tgt, att, e), 3)
+            s1 = _snap(tgt)
+            res.append([r[0] if r[0] == 'ok' else r[1], None if s1 == s0 else [s0, s1]])
+        mutable = isinstance(target, bitstring.BitArray)
+        if mutable:
+            # a mutable last stage: the assignments above were edits; some more in place, then everything else is looked at
+            attempt(lambda: (target.append('0b1'), target.invert(), target.reverse(), target.set(1, 0)), 3)
+        others1 = [_snap(o, False) for o in others]
+        rel_exp = [ex for o, ex in rel if o is not target]
+        re_parsed = [[s, ex, cls_of('Bits')(s).bin] for s, ex in lits]
+        return {'built': 'ok', 'stages': stages, 'snap0': snap0, 'attempts': res, 'others0': others0, 'others1': others1, 'rel_exp': rel_exp, 'reparsed': re_parsed, 'mutable': mutable,
+                'n_prev': len([o for o in objs[:-1] if o is not target])}
+    try:
+        return attempt(f, 60)
+    finally:
+        for p in tmp:
+            try: os.unlink(p)
+            except OSError: pass
+
+def _describe_refuse(c):
+    return f"{c['cls']} by " + ' -> '.join(st['d'] + (str(st['a']) if st['a'] and not st['d'].startswith('base:') else '') for st in c['stages']) + f" (lsb0 mode {c['lsb0']})"
+
+def oracle_refuse(c, obs):
+    what = _describe_refuse(c)
+    if obs[0] != 'ok':
+        return None if c['lsb0'] == 2 else f"{what}: could not be built / probed: {obs}"
+    r = obs[1]
+    if r['built'] != 'ok': return f"{what}: the last stage is a {r['built']}, not a bitstring"
+    if c['lsb0'] != 2:
+        for st, (cl, b) in zip(c['stages'], r['stages']):
+            if b is not None and b != st['exp']:
+                return f"{what}: stage {st['d']} holds {b!r}, the operation on the bits gives {st['exp']!r}"
+    s0 = r['snap0']
+    if not r['mutable']:
+        for att, (status, diff) in zip(c['attempts'], r['attempts']):
+            if diff is not None:
+                return (f"an object of the immutable class {s0[0]} obtained as {what} changed: {att[0]} {att[1]!r} {att[2] if att[2] is not None else ''} "
+                        f"({'returned normally' if status == 'ok' else 'raised ' + str(status)}) left it as [class, bin, len, bytes, bits, hash] = {diff[1]} , before: {diff[0]}"
+                        f"{' (every attempt on a newly built object)' if c['fresh'] else ''}")
+    for i, (b, a) in enumerate(zip(r['others0'], r['others1'])):
+        if a != b:
+            return f"{what}: writing to the last stage ({s0[0]}) changed another object of the history (#{i}, {b[0]}): {b[1]!r} -> {a[1]!r}"
+    if c['lsb0'] != 2:
+        for (b, ex) in zip(r['others0'][r['n_prev']:], r['rel_exp']):
+            if ex is not None and b[1] != ex: return f"{what}: an operand object built with bin={ex!r} reads {b[1]!r}"
+    for s, ex, got in r['reparsed']:
+        if got != ex: return f"{what}: after the attempts Bits({s!r}) reads {got!r}"
+    return None
+
 def gen_cases(rng, tier):
+    yield from history_cases(rng, tier)
+    yield from refuse_cases(rng, tier)
+
+def history_cases(rng, tier):
     yield from deep_histories(rng, tier)
     N = 220 if tier == 'quick' else 4000
     for _ in range(N):
@@ -158,9 +659,10 @@ def gen_cases(rng, tier):
                 steps.append({'op': 'mutate_external', 'target': rng.choice(ext) if ext and rng.random() < 0.8 else rng.randrange(nobj)})
         yield {'op': 'history', 'steps': steps, 'lsb0': rng.random() < 0.2}
 
-def kind(c): return 'history'
+def kind(c): return c['op']
 
 def run_impl(c):
+    if c['op'] == 'refuse': return run_refuse(c)
     import bitstring, bitarray, array
     from bitstring import Bits, BitArray, pack
     clear_caches()
@@ -331,6 +833,7 @@ def run_impl(c):
             except OSError: pass
 
 def oracle(c, obs):
+    if c['op'] == 'refuse': return oracle_refuse(c, obs)
     for st, (before, r, after, part, info) in zip(c['steps'], obs[1]):
         op = st['op']
         if r[0] != 'ok':
@@ -364,6 +867,7 @@ def oracle(c, obs):
     return None
 
 def nontrivial(c, obs):
+    if c['op'] == 'refuse': return obs[0] == 'ok' and len(c['stages']) > 1
     seen_derive = False
     for st in c['steps']:
         if st['op'] == 'derive': seen_derive = True
@@ -376,6 +880,7 @@ def coq_check(c, obs):
     """replay the history on the heap model: sharing graph and values after the last step"""
     ops = []
     nobj = 0
+    if c['op'] == 'refuse': return None      # refused writes: no operation of the heap model (the oracle decides)
     if any(st['op'] == 'derive' and st['how'] in DEEP_DERIVE for st in c['steps']):
         return None      # the store flow of copy.deepcopy / pickle (a new store carrying the flag of the old one) is not an operation of the heap model: these histories are judged by the oracle
     for st, (before, r, after, part, info) in zip(c['steps'], obs[1]):
